@@ -18,6 +18,11 @@ class BasisFn:
         self.label = label
 
     def __call__(self, x):
+        if isinstance(x, Arr) and x.ndim == 2 and 'role' in x.tags:
+            # a basis function is a map R^d -> R: calling it on the d x m data matrix equals the snapshot-wise evaluation only for functions written column-wise
+            A.CTX.event('whole-matrix-call', array=x, detail=f'a basis function is called on the whole data matrix `{x.tags["role"]}` instead of snapshot by snapshot: for a function '
+                        'defined at a point (t -> sum(t**2), t -> max(t[0], 0)) the result is one number (or a wrong array) that is broadcast over all snapshots')
+            return Arr((x.shape[1],), None, 'real', None, {'basis': ('whole-matrix',), 'point': x, 'vectorised': True}, 'basis-value')
         return Arr((), [], 'real', None, {'basis': self.label, 'point': x}, 'basis-value')
 
 
@@ -66,6 +71,7 @@ def check(repo, tier):
                 l2rules.raised_finding(run, 'C16', 'D1', repo, entry, scen, exc)
                 continue
             l2rules.relative_cut_obligations(run, 'C16', 'D1', repo, sc, scen, {MOD, 'tensor_train'})
+            l2rules.whole_matrix_call_obligations(run, 'C16', 'D1', repo, sc, scen, {MOD, 'data_driven.transform'})
             x, y, m = sc.inputs
             ok = l2rules.invariant_obligation(run, 'C16', 'D1', repo, sc, res, entry, scen, 'coefficient tensor', chain=False)
             bad = []
